@@ -102,8 +102,12 @@ def targeted_discs(rng):
     # left-over entries of deleted files behind the end-of-table marker (S148): nothing of them is a file of the image
     out.append(("stale-behind-marker", G.Disc([G.Partition([G.Volume("V", [G.SampleFile("KEEP 1", W(rng, 300)), G.SampleFile("KEEP 2", W(rng, 5000))], stale=4),
                                                              G.Volume("W", [G.SampleFile("ONLY", W(rng, 40))], stale=1, dir_mode="run")], sectors=20)])))
-    # a pair, both orders, equal lengths that fill a sector
-    out.append(("pair", G.Disc([G.Partition([G.Volume("ST", [G.SampleFile("PAD -R", W(rng, 4026)), G.SampleFile("PAD -L", W(rng, 4026)), G.SampleFile("PADX", W(rng, 7))])], sectors=16)])))
+    # a pair, both orders, equal lengths that fill a sector; a rate that is not 44100 (S175); a PROGRAM entry between the
+    # two halves of a second pair (S174: only samples are written, but a program must not split the directory in two)
+    import gen_akai_prog as GP
+
+    out.append(("pair", G.Disc([G.Partition([G.Volume("ST", [G.SampleFile("PAD -R", W(rng, 4026), rate=32000), G.SampleFile("PAD -L", W(rng, 4026), rate=32000), G.SampleFile("PADX", W(rng, 7)),
+                                                              G.SampleFile("STR A-R", W(rng, 300), rate=48000), GP.random_program(rng, "PRG 3", nkg=1), G.SampleFile("STR A-L", W(rng, 300), rate=48000)])], sectors=20)])))
     return out
 
 
